@@ -76,7 +76,15 @@ pub fn run_case(out: &mut Out, header: &str) {
     let a: Vec<&str> = header.split(' ').collect();
     out.begin(header);
     let light = a.get(4) == Some(&"light");
-    let book = match book_of(&a) {
+    // `lazygen` / `lazyfile`: the same workbook saved once, opened LAZILY, one sheet deserialized (the others stay
+    // raw and are copied verbatim with their indexes into the loaded tables) and saved again: that second file is
+    // the one under test; what it must mean is what the eager reading of the first file holds
+    let lazy = a[2].starts_with("lazy");
+    let mut a0 = a.clone();
+    if lazy {
+        a0[2] = &a[2][4..];
+    }
+    let book = match book_of(&a0) {
         Ok(b) => b,
         Err(e) => {
             out.oracle_fail(Fail::new("case-build-failed").with("op", header).with("detail", e));
@@ -87,12 +95,41 @@ pub fn run_case(out: &mut Out, header: &str) {
     out.end(header, "ok", false);
     out.count(&format!("case.{}.{}", a[2], if light { "light" } else { "std" }));
     out.count("programs");
-    let bytes = match guard(|| wb::save_bytes(&book, light)) {
-        Ok(Ok(b)) => b,
-        _ => {
-            out.oracle_fail(Fail::new("save-failed").with("op", header));
-            return;
+    let (book, bytes) = if lazy {
+        let r = guard(|| -> Result<(Spreadsheet, Vec<u8>), String> {
+            let b0 = wb::save_bytes(&book, false).map_err(|e| format!("{:?}", e))?;
+            let eager = umya_spreadsheet::reader::xlsx::read_reader(std::io::Cursor::new(b0.clone()), true).map_err(|e| format!("{:?}", e))?;
+            let mut l = umya_spreadsheet::reader::xlsx::read_reader(std::io::Cursor::new(b0), false).map_err(|e| format!("{:?}", e))?;
+            let n = l.get_sheet_count();
+            let seed: usize = a[3].bytes().map(|x| x as usize).sum();
+            // deserialize one sheet (two when there are more than three); never all of them unless there is only one
+            let _ = l.get_sheet_mut(&(seed % n));
+            if n > 3 {
+                let _ = l.get_sheet_mut(&((seed / 7) % n));
+            }
+            let b1 = wb::save_bytes(&l, light).map_err(|e| format!("{:?}", e))?;
+            Ok((eager, b1))
+        });
+        match r {
+            Ok(Ok(x)) => x,
+            Ok(Err(e)) => {
+                out.oracle_fail(Fail::new("lazy-resave-failed").with("op", header).with("detail", e));
+                return;
+            }
+            Err(_) => {
+                out.oracle_fail(Fail::new("lazy-resave-panicked").with("op", header));
+                return;
+            }
         }
+    } else {
+        let bytes = match guard(|| wb::save_bytes(&book, light)) {
+            Ok(Ok(b)) => b,
+            _ => {
+                out.oracle_fail(Fail::new("save-failed").with("op", header));
+                return;
+            }
+        };
+        (book, bytes)
     };
     let parts = match unzip_all(&bytes) {
         Ok(p) => p,
@@ -140,6 +177,16 @@ pub fn gen(tier: Tier, seed: u64) -> Vec<String> {
     for (i, f) in corpus_files(tier == Tier::Thorough).iter().enumerate() {
         if tier == Tier::Thorough || i % 4 == 0 {
             v.push(format!("c02 reset file {} {}", f, if i % 2 == 1 { "light" } else { "std" }));
+        }
+    }
+    // partly deserialized workbooks (opened lazily, one sheet touched, saved)
+    let n = if tier == Tier::Thorough { 400 } else { 40 };
+    for i in 0..n {
+        v.push(format!("c02 reset lazygen {} {}", rng.next() % 1_000_000_007, if i % 4 == 3 { "light" } else { "std" }));
+    }
+    for (i, f) in corpus_files(tier == Tier::Thorough).iter().enumerate() {
+        if tier == Tier::Thorough || i % 6 == 1 {
+            v.push(format!("c02 reset lazyfile {} {}", f, if i % 2 == 1 { "light" } else { "std" }));
         }
     }
     v
